@@ -139,7 +139,7 @@ func checkC15(c *Check) {
 					}
 					switch y := m.(type) {
 					case *ast.CallExpr:
-						if fn := Callee(info, y); fn != nil && (fn.Name() == "Equal" || fn.Name() == "CastStruct") {
+						if fn := Callee(info, y); fn != nil && (nameIs(fn, "Equal") || nameIs(fn, "CastStruct")) {
 							for _, a := range y.Args {
 								if aid, ok := ast.Unparen(a).(*ast.Ident); ok && info.Uses[aid] == obj {
 									used = true
@@ -181,7 +181,7 @@ func checkC15(c *Check) {
 				if !ok || call.Pos() < cs.Call.End() {
 					return true
 				}
-				if fn := Callee(ci, call); fn != nil && fn.Name() == "Equal" && strings.HasSuffix(fn.Pkg().Path(), "/ddptypes") && len(call.Args) == 2 {
+				if fn := Callee(ci, call); fn != nil && nameIs(fn, "Equal") && strings.HasSuffix(fn.Pkg().Path(), "/ddptypes") && len(call.Args) == 2 {
 					a, b := types.ExprString(call.Args[0]), types.ExprString(call.Args[1])
 					if target != "" && ((a == target && b == argT) || (b == target && a == argT)) {
 						compared = true
@@ -208,7 +208,7 @@ func checkC15(c *Check) {
 		cnt := map[types.Object]int{}
 		ast.Inspect(fi.Decl.Body, func(n ast.Node) bool {
 			if ix, ok := n.(*ast.IndexExpr); ok {
-				if v := fieldOf(info, ix.X); v != nil && v.Name() == "Instantiations" {
+				if v := fieldOf(info, ix.X); v != nil && nameIs(v, "Instantiations") {
 					if id, ok := ast.Unparen(ix.Index).(*ast.Ident); ok {
 						cnt[info.Uses[id]]++
 					}
@@ -291,7 +291,7 @@ func checkC15(c *Check) {
 				if !ok {
 					return true
 				}
-				if fn := Callee(info, call); fn != nil && fn.Name() == "GetInstantiatedType" && len(call.Args) == 2 {
+				if fn := Callee(info, call); fn != nil && nameIs(fn, "GetInstantiatedType") && len(call.Args) == 2 {
 					nInst++
 					if id, ok := ast.Unparen(call.Args[1]).(*ast.Ident); !ok || info.Uses[id] != m {
 						okInst = false
@@ -310,7 +310,7 @@ func checkC15(c *Check) {
 		ctxOK := false
 		ast.Inspect(fi.Decl.Body, func(n ast.Node) bool {
 			if call, ok := n.(*ast.CallExpr); ok {
-				if fn := Callee(info, call); fn != nil && fn.Name() == "generateGenericContext" && len(call.Args) == 3 {
+				if fn := Callee(info, call); fn != nil && nameIs(fn, "generateGenericContext") && len(call.Args) == 3 {
 					if id, ok := ast.Unparen(call.Args[2]).(*ast.Ident); ok && info.Uses[id] == tm {
 						ctxOK = true
 					}
@@ -355,7 +355,7 @@ func checkC15(c *Check) {
 		mf := &mustFlow{G: g, Init: 0, Transfer: func(n ast.Node, s uint32) uint32 {
 			if mentionsCtx(n, "Operators") {
 				callsIn(n, func(call *ast.CallExpr) {
-					if fn := Callee(info, call); fn != nil && (fn.Name() == "Copy" || fn.Name() == "Clone") {
+					if fn := Callee(info, call); fn != nil && (nameIs(fn, "Copy") || nameIs(fn, "Clone")) {
 						s |= fOps
 					}
 				})
@@ -364,7 +364,7 @@ func checkC15(c *Check) {
 				s |= fSyms
 			}
 			callsIn(n, func(call *ast.CallExpr) {
-				if fn := Callee(info, call); fn != nil && fn.Name() == "Insert" {
+				if fn := Callee(info, call); fn != nil && nameIs(fn, "Insert") {
 					s |= fAliases
 				}
 			})
@@ -397,7 +397,7 @@ func checkC15(c *Check) {
 				has := false
 				ast.Inspect(rs.Body, func(x ast.Node) bool {
 					if call, ok := x.(*ast.CallExpr); ok {
-						if fn := Callee(info, call); fn != nil && fn.Name() == "Insert" {
+						if fn := Callee(info, call); fn != nil && nameIs(fn, "Insert") {
 							has = true
 						}
 					}
@@ -426,7 +426,7 @@ func checkC15(c *Check) {
 			if !ok {
 				return true
 			}
-			if v := fieldOf(info, rs.X); v == nil || v.Name() != "Instantiations" {
+			if v := fieldOf(info, rs.X); v == nil || !nameIs(v, "Instantiations") {
 				return true
 			}
 			ast.Inspect(rs.Body, func(m ast.Node) bool {
@@ -434,8 +434,8 @@ func checkC15(c *Check) {
 				if !ok {
 					return true
 				}
-				if fn := Callee(info, call); fn != nil && fn.Name() == "EqualFunc" && len(call.Args) == 3 {
-					if f3 := Callee(info, &ast.CallExpr{Fun: call.Args[2]}); f3 != nil && f3.Name() == "Equal" {
+				if fn := Callee(info, call); fn != nil && nameIs(fn, "EqualFunc") && len(call.Args) == 3 {
+					if f3 := Callee(info, &ast.CallExpr{Fun: call.Args[2]}); f3 != nil && nameIs(f3, "Equal") {
 						lookup = true
 					} else if id, ok := call.Args[2].(*ast.Ident); ok && id.Name == "Equal" {
 						lookup = true
@@ -450,7 +450,7 @@ func checkC15(c *Check) {
 		g := L.CFG(fi)
 		mf := &mustFlow{G: g, Init: 0, Transfer: func(n ast.Node, s uint32) uint32 {
 			if as, ok := n.(*ast.AssignStmt); ok && len(as.Lhs) == 1 {
-				if v := fieldOf(info, as.Lhs[0]); v != nil && v.Name() == "Instantiations" && strings.Contains(L.Src(as.Rhs[0]), "append(") {
+				if v := fieldOf(info, as.Lhs[0]); v != nil && nameIs(v, "Instantiations") && strings.Contains(L.Src(as.Rhs[0]), "append(") {
 					return s | 1
 				}
 			}
